@@ -41,8 +41,9 @@ type wfake struct {
 	pending int // delayed answers / closes that are still due
 	nreq    map[string]int
 
-	// fault is called (without the lock) for every Metadata ("metadata", auto = the request
-	// allows topic creation and names topics) and Produce ("produce") request
+	// fault is called (without the lock) for every ApiVersions ("apiversions": the connection
+	// set-up), Metadata ("metadata", auto = the request allows topic creation and names topics)
+	// and Produce ("produce") request
 	fault func(api string, auto bool) wfault
 }
 
@@ -128,6 +129,13 @@ func (f *wfake) serve(c net.Conn) {
 		var flt wfault
 		switch req := msg.(type) {
 		case *apiversions.Request:
+			f.count("apiversions")
+			if f.fault != nil {
+				flt = f.fault("apiversions", false)
+			}
+			if !f.late(flt) {
+				return
+			}
 			res = &apiversions.Response{ApiKeys: wfakeVersions}
 		case *meta.Request:
 			auto := req.AllowAutoTopicCreation && len(req.TopicNames) > 0
